@@ -22,6 +22,7 @@ def tables : List (String → List String → Option String) := []
   ++ [Drv.T2.table]
   ++ [Drv.C15.table]
   ++ [Drv.TableApi.specTable]
+  ++ [Drv.T2Db.table]
 
 /-- Stateful groups, selected by a first line `#mode <name>`. -/
 def modes : List Mode := []
@@ -34,6 +35,7 @@ def modes : List Mode := []
   ++ [Drv.CratesV1Explore.mode]
   ++ [Drv.T2.mode]
   ++ [Drv.TableApi.mode]
+  ++ [Drv.T2Db.mode]
   ++ Drv.C15.modes
 
 def dispatch (line : String) : String :=
